@@ -10,7 +10,7 @@ CONSTANTS
   OblTruthful = TRUE
   OblLockCover = TRUE
   OblDirtyRefused = TRUE
-  OblIdempotent = TRUE
+  OblIdempotent = FALSE
   OblFence = TRUE
 INVARIANTS TypeOK ATAtomicRollback TCCAtomic NoDirtyGlobalWrite RollbackPossible
 CHECK_DEADLOCK FALSE
